@@ -27,6 +27,7 @@ func init() {
 			ruleInvokeShape(c, "C16.5")
 			ruleNoDataAfterHalfClose(c, "C16.6")
 			ruleReassembly(c, "C16.7")
+			ruleBrokenStreamEndsRPC(c, "C16.8")
 		},
 		Explain:    "Static necessary conditions of call-shape enforcement (none of these branches is executed by the suite): the send-count guards dominate the call into the sender with the right polarity and flag per side, incrementing under the write mutex; the look-ahead read exists on the non-streaming edge, turns a second message into the right non-nil status that sticks, and delivers the first message only after io.EOF on an intact stream; Invoke's second receive into a fresh message returning nil only on io.EOF; streaming flags flow from the StreamDesc fields of the same name.",
 		Assume:     []string{"generated stubs call NewStream/Invoke with their own StreamDesc"},
